@@ -34,3 +34,36 @@ def event_constructors(ctx, variant):
 
 def table_calls(ctx, body, table, ops):
     return [c for c in ctx.table_ops(table, CR, ops=ops) if c.body is body]
+
+def no_rejection_after_events(ctx, n):
+    """shared by C01 (production and validation report the same events) and C04 (a skipped transaction leaves nothing)"""
+    F = ctx.F
+    # -- 6. no transaction-level rejection after the first event of the transaction has been recorded --
+    with ctx.clause(f"{n}.no-rejection-after-events"):
+        EXQ = "fuel_core_executor::executor::BlockExecutor"
+        b = ctx.body_with(f"{EXQ}::execute_chargeable_transaction", f"{EXQ}::spend_input_utxos")
+        sp = ctx.one_call(b, f"{EXQ}::spend_input_utxos")
+        after = b.reach([sp.target]) if sp.target is not None else set()
+        # events / statuses are appended to the block-wide ExecutionData, which is NOT rolled back when the producer skips
+        # the transaction: after spend_input_utxos only storage failures (fatal for producer and validator alike) may occur
+        rej = [(bb, s) for bb, j, s in b.stmts() if bb in after and bb in b.live and s["k"] == "assign" and s["rv"]["k"] == "agg" and
+               (s["rv"].get("adt") or "").endswith("::ExecutorError")]
+        ctx.expect_sites(f"{n}.no-executor-error-after-first-event", [f"{s['rv'].get('variant')} at line {s.get('line')}" for _, s in rej], exactly=0,
+                         what="ExecutorError constructed in execute_chargeable_transaction after spend_input_utxos (a skip at that point leaves the events of the skipped transaction in the producer's result, "
+                              "which validation of the same block does not report)")
+        # every error exit after that point is the `?` of one of the storage steps
+        allowed = ("spend_input_utxos", "persist_output_utxos", "insert", "update_execution_data")
+        o6 = Origins(b, 0)
+        odd = []
+        for c in b.calls:
+            if c.bb in after and c.bb in b.live and c.name == "from_residual":
+                srcs = {str(v).split("::")[-1] for k, v in o6.atoms(c.args[0]) if k == "call"} - {"branch", "from_residual"}
+                if not srcs or not srcs <= set(allowed):
+                    odd.append(f"`?` at {c.where()} propagates {sorted(srcs)}")
+        errb = [bb for bb, j, s in b.stmts() if bb in after and bb in b.live and s["k"] == "assign" and s["rv"]["k"] == "agg" and s["rv"].get("adt") == "core::result::Result" and s["rv"].get("variant") == "Err"]
+        odd += [f"Err(..) built in bb{bb}" for bb in errb]
+        ctx.expect_sites(f"{n}.only-storage-failures-after-first-event", odd, exactly=0,
+                         what="error exit after spend_input_utxos that is not the `?` of persist_output_utxos / ProcessedTransactions.insert / update_execution_data")
+        dup = ctx.one_call(ctx.body_with(f"{EXQ}::execute_transaction", f"{EXQ}::check_tx_is_not_duplicate"), f"{EXQ}::check_tx_is_not_duplicate")
+        ctx.add(f"{n}.duplicate-check-before-any-effect", "ORDER", all(dup.body.path([c.target], [dup.bb]) is None for c in dup.body.calls if c.bb in dup.body.live and c.name.startswith("execute_") and c.target is not None),
+                "the duplicate-id rejection happens before the transaction is executed", sites=[dup.where()], site_key="dup")
